@@ -281,8 +281,13 @@ class Function:
                      'CXXStaticCastExpr', 'FullExpr') and n['ch']:
                 i = n['ch'][0]
                 continue
-            if k == 'CXXConstructExpr' and len(n['ch']) == 1 and n.get('ctor', '').startswith('std::') is False:
-                pass
+            if k == 'CXXConstructExpr' and len(n['ch']) == 1:
+                # copy/move construction of the same type: look through
+                c = self.nodes.get(n['ch'][0])
+                ct = (c or {}).get('ty', '').replace('const ', '').strip()
+                if ct and ct == (n.get('ty') or '').replace('const ', '').strip():
+                    i = n['ch'][0]
+                    continue
             return n
 
     def fp(self, i, strip_casts=True):
